@@ -71,7 +71,12 @@ def build_driver(race=False):
         shutil.copytree(HARNESS, harness)
         gm = harness / "go.mod"
         gm.write_text(gm.read_text().replace("=> /repo", f"=> {REPO}"))
-    shutil.copy(REPO / "go.sum", harness / "go.sum")
+    want = (REPO / "go.sum").read_bytes()
+    gs = harness / "go.sum"
+    if not gs.exists() or gs.read_bytes() != want:   # atomically: checks may run side by side
+        tmp = gs.with_name(f"go.sum.{os.getpid()}")
+        tmp.write_bytes(want)
+        os.replace(tmp, gs)
     out = BUILD / ("vdriver-race" if race else "vdriver")
     cmd = ["go", "build", "-tags", "verif"] + (["-race"] if race else []) + ["-o", str(out), "./cmd/vdriver"]
     t = time.time()
